@@ -145,11 +145,10 @@ impl<K: Ord + Copy, V> Dag<K, V> {
 
     /// Merge a DAG into this one.
     pub fn merge(&mut self, mut other: Self) {
-        let Some((root, _)) = other.roots().next() else {
-            return;
-        };
+        // Nb. Start from *all* roots: a graph can have several, and nodes only
+        // reachable from the other roots would otherwise be left out.
         let mut visited = BTreeSet::new();
-        let mut queue = VecDeque::<K>::from([*root]);
+        let mut queue = other.roots().map(|(k, _)| *k).collect::<VecDeque<K>>();
 
         while let Some(next) = queue.pop_front() {
             if !visited.insert(next) {
@@ -568,6 +567,30 @@ mod tests {
         assert!(a.tips.contains(&3));
         assert!(a.tips.contains(&4));
         assert!(a.roots.contains(&0));
+    }
+
+    #[test]
+    fn test_merge_multiple_roots() {
+        let mut a = Dag::new();
+        let mut b = Dag::new();
+
+        a.node(0, ());
+
+        b.node(1, ());
+        b.node(2, ());
+        b.node(3, ());
+        b.dependency(3, 1);
+        b.dependency(3, 2);
+
+        a.merge(b);
+
+        assert_eq!(a.len(), 4);
+        assert!(a.get(&2).is_some());
+        assert!(a.has_dependency(&3, &1));
+        assert!(a.has_dependency(&3, &2));
+        assert!(a.get(&2).unwrap().dependents.contains(&3));
+        assert_eq!(a.roots, BTreeSet::from_iter([0, 1, 2]));
+        assert_eq!(a.tips, BTreeSet::from_iter([0, 3]));
     }
 
     #[test]
